@@ -23,3 +23,5 @@ import PPProofs.Props.C04Iter
 #print axioms PP.Parse.parse_I_step
 #print axioms PP.Parse.manyLoop_eq_iterLoop
 #print axioms PP.Parse.exG2_end_differs
+#print axioms PP.Parse.parseLR_direct_eq_parse_iterative_ws_partial
+#print axioms PP.Parse.parse_I_step_ws
